@@ -260,6 +260,7 @@ class Spec(PropSpec):
         cases.append(F.dns_bulk_case(False, 65538, [0, 1, 255, 256, 65534, 65535, 65536, 65537]))
         if ctx.tier != "quick":
             cases.append(F.dns_bulk_case(True, 70000, [0, 1, 65535, 65536, 69999]))
+        ctx.rng.shuffle(cases)      # spreads the (slower to evaluate) dns cases over the coqc shards
         return cases
 
     def to_model(self, case, obs):
